@@ -265,7 +265,48 @@ def rule_config_preserved(ctx):
                   % (fld, ", ".join(sorted(config[fld])), "; ".join(writers)[:300]))
 
 
+def rule_setters_verbatim(ctx, R="C19/setters-verbatim", only=None):
+    """what the caller configures is what a dump uses: every `set_*` method of MinidumpWriter stores its argument itself
+    (or Some(argument)) into the field of the same name — no filtering, de-duplication, clamping or reordering on the way in"""
+    prog = ctx.prog
+    n = 0
+    for b in prog.bodies:
+        if not (b.short.startswith(MW + "::set_") and b.kind != "Closure"):
+            continue
+        fld = b.short.split("::set_")[-1]
+        if only and fld not in only:
+            continue
+        o = Origin(b)
+        stores = []
+        others = []
+        for bi, blk in enumerate(b.blocks):
+            if blk["cleanup"]:
+                continue
+            for si, st in enumerate(blk["stmts"]):
+                if st["k"] == "assign" and st["p"]["proj"] and st["p"]["proj"][-1].get("k") == "field" and norm(st["p"]["proj"][-1].get("adt") or "") == MW:
+                    stores.append((bi, si, st["p"]["proj"][-1]["n"], o._rvalue(st["r"], (bi, si), 0)))
+            t = blk["term"]
+            if t["k"] == "call":
+                nm = (CalleeView(t["callee"]).short or "?").split("::")[-1]
+                if nm not in ("drop", "drop_in_place", "deref_mut", "deref"):
+                    others.append(nm)
+        n += 1
+        good = len(stores) == 1 and stores[0][2] == fld
+        if good:
+            v = strip(stores[0][3])
+            if v[0] == "agg" and v[2] == "Some":
+                v = strip(dict(v[3])["0"])
+            good = v == ("param", 2)
+        ctx.check(good and not others, R, ("setter", fld), b.where(0), "set_%s stores its argument unchanged" % fld,
+                  "set_%s does not store its argument verbatim (stores: %s; calls: %s): the dump no longer uses exactly what the caller asked for"
+                  % (fld, [(f_, show(v_)[:60]) for _, _, f_, v_ in stores], sorted(set(others))))
+    if not only:
+        ctx.floor(R, "setters of MinidumpWriter", n, 6)
+    return n
+
+
 def run(ctx):
     rule_stale_field(ctx)
     rule_config_preserved(ctx)
+    rule_setters_verbatim(ctx)
     rule_fresh_locals(ctx)
